@@ -153,8 +153,13 @@ def main(ctx: Ctx) -> int:
             val = {"solver": solver, "device": "cpu", "method": method}.get(opt, base.get(opt, ""))
             req[opt] = [{"shape": "plain", "id": tid_of(opt, val)}]
             cli.append(f"--{cname}='{val}'" if val != "" else f"--{cname}=null")
-        om = ";".join(f"{kk}:{fact},[{' '.join(deps)}]" for kk, fact, deps in base["ode_modifier"])
-        cli += [f"--name={base['name']}", "--description=desc", "--loading=null", f"--ode-modifier='{om}'" if om else "", "--render", "--render-force"]
+        oms = [f"{kk}:{fact},[{' '.join(deps)}]" for kk, fact, deps in base["ode_modifier"]]
+        if len(oms) > 1 and (k // 5) % 2 == 1:
+            # the option may be given several times, each value a ';'-separated list that may end with ';' (the form `naunet example` writes)
+            omopts = [f"--ode-modifier='{x};'" for x in oms]
+        else:
+            omopts = [f"--ode-modifier='{';'.join(oms)}'"] if oms else []
+        cli += [f"--name={base['name']}", "--description=desc", "--loading=null", *omopts, "--render", "--render-force"]
         # --- run the command line, capturing what reaches Network(...) / TemplateLoader(...)
         Species.reset()
         chemistrydata.user_binding_energy.clear()
